@@ -40,6 +40,7 @@ def dispatch1 (op : String) (j : Json) : R Json :=
   | "hapQuery" => hHapQuery j
   | "gtStore" => hGtStore j
   | "gtRestrict" => hGtRestrict j
+  | "subsetRun" => hSubsetRun j
   | "phenoParse" => hPhenoParse j
   | "uniqNames" => hUniqNames j
   | "noiseVar" => hNoiseVar j
